@@ -28,24 +28,21 @@ type wsConn struct {
 
 // Read ...
 func (c *wsConn) Read(b []byte) (int, error) {
-	var n int
+	// serve what is left of the previous frame first and return at once:
+	// bytes are available, so the read must not wait for a further frame
 	if len(c.rem) > 0 {
-		n = copy(b, c.rem)
+		n := copy(b, c.rem)
+		c.rem = c.rem[n:]
 
-		if n < len(c.rem) {
-			c.rem = c.rem[n:]
-		}
+		c.stat.OnRecv(n)
+
+		return n, nil
 	}
 
-	var err error
-	if n < len(b) {
-		var data []byte
-		data, err = wsutil.ReadClientBinary(c.Conn)
-		n1 := copy(b[n:], data)
-		n += n1
-		if n1 < len(data) {
-			c.rem = data[n1:]
-		}
+	data, err := wsutil.ReadClientBinary(c.Conn)
+	n := copy(b, data)
+	if n < len(data) {
+		c.rem = data[n:]
 	}
 
 	c.stat.OnRecv(n)
